@@ -114,3 +114,145 @@ check("C14", "vloop+bussim+explore",
       "are judged by a reference automaton written from the statement.",
       "The terminal model never reports a state that was not requested; "
       "BOOTSTRAP is excluded as the statement says.")
+
+check("C08", "bpfvm",
+      "exhaustive enumeration of declaration sets; simulated bpf() + eBPF "
+      "interpreter; real-kernel differential",
+      "All multisets of <= 3 (quick) / 4 (thorough) array-map variable "
+      "declarations over 13 formats x 6 places (base class, derived class, "
+      "re-declaration, two instances of one subprogram class, a second "
+      "subprogram class) are laid out by the real ArrayMap.collect; positions "
+      "must be disjoint and inside the map; values written from Python are "
+      "read by the generated program (run in the interpreter) and vice versa "
+      "(fixed-point as decimals, multi-element formats as tuples, per-CPU "
+      "maps with 4 possible/online CPU settings). 427 cases are re-run "
+      "unpatched on the real kernel and must agree.",
+      "Trusted: mc/simkernel.py (self-tested against the real kernel by a "
+      "105-step script on every run), mc/bpfvm.py.")
+check("C09", "bpfvm",
+      "explicit-state BFS over operation sequences from both sides; "
+      "simulated bpf() + interpreter; real-kernel differential",
+      "71 (quick) / 325 (thorough) hash-map variable and Dict configurations "
+      "(formats x defaults; packed Structure key/value definitions, size 2/31, "
+      "LRU on/off); breadth-first search to depth 3/4 over Python operations "
+      "(set, get, pop, del, iterate, values) and program operations "
+      "(update with ANY/NOEXIST/EXIST, lookup+Else, modify in lookup, hash "
+      "variable set/copy/read), deduplicated on map contents, against a "
+      "plain-dict reference. Every 3rd/4th configuration is replayed edge "
+      "by edge on the real kernel (14159 edges in quick) and must agree.",
+      "LRU eviction order is accepted as any subset vanishing before the "
+      "operation acts (as the real kernel behaves). Trusted: mc/simkernel.py.")
+check("C10", "bpfvm",
+      "exhaustive enumeration of user-space map operations under a "
+      "buffer-length monitor inside the simulated bpf()",
+      "Every Python-side map operation (hash variable get/set for 9 formats "
+      "incl. load() defaults, array variables via mmap, per-CPU read() with "
+      "(possible, online) in {(1,1),(2,2),(16,16),(19,16)}, every Dict "
+      "operation breadth-first to depth 3) runs against a simulated bpf() "
+      "that knows the length of every registered user buffer and reports "
+      "any command whose key/value buffer is shorter than the kernel would "
+      "read or write; it never performs the overrun.",
+      "Trusted: mc/simkernel.py's decoding of union bpf_attr per command "
+      "(bound to the real kernel by its self-test).")
+check("C19", "bpfvm",
+      "exhaustive enumeration of variable kinds x layouts; Python path vs "
+      "generated program differential + struct reference",
+      "A fake terminal with 87 process variables per direction (a bit at "
+      "every position, B H I Q aligned and unaligned, signed/size/bit "
+      "overrides, PacketDescs, Struct channels with sm/coe offsets), devices "
+      "linking 1-3 variables, 6 frame layouts (FMMU/direct, neighbours), "
+      "read / write from a DeviceVar / write a constant, three frame "
+      "contents and boundary values: each case runs on the Python path "
+      "(slow SyncGroup) and as generated fast-group program in the "
+      "interpreter on the same bytes; both are compared with struct/bit "
+      "masks and with each other.",
+      "Region starts come from the real allocate() (their correctness is "
+      "C18's business), cross-checked against the parsed frame for direct "
+      "terminals.")
+check("C21", "bpfvm",
+      "explicit-state BFS over dispatcher states; every transition executes "
+      "the real generated dispatcher + group bytecode",
+      "Shares C22's explorer: state = (loop counter low byte, output enabled, "
+      "overtaking budget, queue of <= 3 in-flight frames with index byte, "
+      "writer command bytes and counters). C21's invariants are evaluated on "
+      "every transition: frames leave user space sterile, activation touches "
+      "exactly the writer command bytes / counters / wkc_errors / device "
+      "outputs and only in a pass that ran the group program with output "
+      "enabled, no frame is returned to the bus with an enabled writer "
+      "unless processed in that pass. Every distinct step is replayed "
+      "through BPF_PROG_TEST_RUN on the real kernel.",
+      "Complete in ring order for <= 3 frames; out-of-order delivery "
+      "bounded by the overtaking budget K (1 quick, 3 thorough).")
+check("C22", "bpfvm",
+      "explicit-state BFS over dispatcher states; every transition executes "
+      "the real generated dispatcher + group bytecode",
+      "All reachable states of (loop counter mod 256, <= 3 in-flight frames "
+      "in ring order, losses, injections of real sterile frames, bus "
+      "counters in {expected, expected-1, 0}, 7 foreign frames) for 3 "
+      "(quick) / 9 (thorough) datagram layouts x registered/unregistered; "
+      "out-of-order delivery with overtaking budget K <= 1 / 3. Invariants: "
+      "XDP action TX or PASS only, foreign frames byte-identical, "
+      "unregistered groups reach user space with the right ethertype and "
+      "never circulate on deliveries alone, registered groups never see "
+      "more than two consecutive frames without the group program. Every "
+      "distinct VM step is also executed by the real kernel and must agree.",
+      "The unrestricted any-order space is not enumerable (index drift); "
+      "behaviours in which one frame is overtaken more than K times are "
+      "excluded. One known finding (starvation after overtaking).")
+check("C26", "bpfvm",
+      "exhaustive product of boundary alphabets through the real generated "
+      "Motor program; reference control law; path coverage",
+      "The real Motor.program inside a real FastSyncGroup over fake EL7041 / "
+      "encoder terminals (FMMU and direct) runs in the interpreter for the "
+      "full product of velocity limit x previous velocity x acceleration "
+      "limit x gain x switches x distances that put gain*(target-position) "
+      "on, just below and just above every threshold of the law and the "
+      "16/32/64-bit edges (1.85e5 runs quick, 2.9e6 thorough); all 9 "
+      "branches are taken both ways (60 paths per configuration); every "
+      "53rd vector also runs in the real kernel.",
+      "The statement quantifies over all bit-vectors; this decides it for "
+      "the boundary alphabet product and all control-flow paths only. "
+      "Inputs are read in their declared formats (unsigned 32-bit "
+      "DeviceVars).")
+check("C25", "vloop+bussim+explore",
+      "stateless DFS over all randint answers and bounded delivery-order "
+      "deviations on the real address-assignment code",
+      "Buses of 2-3 (quick) / 2-4 terminals (pre-assigned inside/outside the "
+      "range or unaddressed) x workloads (concurrent Terminal.initialize, "
+      "scan_serial_numbers, both): the real find_free_address / "
+      "assigned_address / scan_serial_numbers / initialize run on the "
+      "virtual loop against ESC models with SII images; the address range "
+      "is shrunk to 5 addresses and every randint answer is a free explorer "
+      "choice so that collisions are forced; delivery-order deviations are "
+      "bounded (1 quick / 2 thorough). Every station-address write is "
+      "checked: inside the range, never handed out twice, never an address "
+      "at which another terminal answers.",
+      "Capped at 3000 (quick) / 40000 executions per configuration; caps are "
+      "reported in the evidence.")
+check("C20", "vloop+bussim+explore",
+      "explicit-state search over map/unmap sequences through the real "
+      "context manager",
+      "All sequences of map(read) / map(write) / unmap(i-th live mapping) up "
+      "to length 5 (quick) / 6 on terminals with 1-4 FMMUs run through the "
+      "real Terminal.map_fmmu __aenter__/__aexit__ over the roundtrip stack "
+      "against the ESC model; states are rebuilt by replay and "
+      "deduplicated on (FMMU registers, live set, slot table). Invariant on "
+      "the model's FMMU registers: every live mapping stays programmed in "
+      "exactly one active FMMU, only live mappings are active.",
+      "A mapping attempt may fail for any reason (the statement only "
+      "forbids reuse).")
+check("C30", "vloop+bussim+explore",
+      "stateless deviation-bounded DFS over cycles of the real slow sync "
+      "group on the bus model",
+      "Six terminal sets (1-3 cyclic datagrams: FMMU in, FMMU out, direct) "
+      "run the real SyncGroup.start/run/update_devices incl. map_fmmu and "
+      "state changes on the virtual loop over the bus model for 3 cycles; "
+      "input pattern per cycle is a free choice (3), wrong working counters "
+      "per datagram (expected-1, 0) and late frames (timeout path) are "
+      "deviations (bound 2 quick / 3 thorough; 1.0e5 executions quick). A "
+      "recording device checks: inputs seen = latest response, outputs of "
+      "cycle n reach the terminals with the next frame, counters zero in "
+      "resent frames, wkc_errors grows exactly by the number of mismatching "
+      "datagrams from the second cycle on.",
+      "A frame passes the terminals when it is sent; only its return may be "
+      "late.")
